@@ -28,14 +28,19 @@ the measurement M of a device S from the named matrices; it is what gives the
 names their meaning (a writer that swaps two matrices consistently with its
 reader is exposed by it).
 """
+import os
 import re
 import sys
 
 try:
+    if os.environ.get("VCALFILE_NO_PYYAML"):
+        raise ImportError("disabled by VCALFILE_NO_PYYAML")
     import yaml as _yaml
 except ImportError:                                    # pragma: no cover
     _yaml = None
     for _p in ("/root/.pyenv/versions/3.11.7/lib/python3.11/site-packages",):
+        if os.environ.get("VCALFILE_NO_PYYAML"):
+            break
         try:
             sys.path.append(_p)
             import yaml as _yaml
